@@ -85,8 +85,14 @@ def gen_case(run):
 
 
 def oracle(run):
-    for _ in range(run.budget(350, 8000)):
-        d, sp = gen_case(run)
+    n_corpus = len(gen_desc.CORPUS)
+    for i in range(n_corpus + run.budget(350, 8000)):
+        if i < n_corpus:
+            # first the corpus of minimised past failures, each in its canonical and two random spellings
+            d = gen_desc.CORPUS[i]
+            sp = [gen_desc.print_desc(d, gen_desc.Spelling(None)), gen_desc.print_desc(d, gen_desc.Spelling(run.rng)), gen_desc.print_desc(d, gen_desc.Spelling(run.rng))]
+        else:
+            d, sp = gen_case(run)
         run.case(("oracle", tuple(map(tuple, (t for t, _ in sp)))), sp[1][0] != sp[2][0], kind="spellings")
         for sig, detail in check_case(d, sp):
             run.violate(sig, detail, {"desc": repr(d), "spellings": [t for t, _ in sp]})
